@@ -468,7 +468,10 @@ svalue_t *safe_apply (const char *fun, object_t * ob, int num_arg, int where)
   error_context_t econ;
 
   if (!save_context (&econ))
-    return 0;
+    {
+      pop_n_elems (num_arg);	/* like apply(), always remove the arguments */
+      return 0;
+    }
 
   if (!setjmp (econ.context))
     {
@@ -477,11 +480,17 @@ svalue_t *safe_apply (const char *fun, object_t * ob, int num_arg, int where)
           ret = apply (fun, ob, num_arg, where);
         }
       else
-        ret = 0;
+        {
+          pop_n_elems (num_arg);
+          ret = 0;
+        }
     }
   else
     {
       restore_context (&econ);
+      /* the context was saved after the arguments were pushed, so they are
+       * still on the stack (c.f. safe_call_function_pointer) */
+      pop_n_elems (num_arg);
       ret = 0;
     }
   pop_context (&econ);
